@@ -21,6 +21,8 @@ def plan(tier, seed):
     nb = 2 if tier == "quick" else 12
     n = 25 if tier == "quick" else 60
     specs = [{"name": "book-%d" % b, "kind": "book", "b": b, "n": n, "timeout": 900} for b in range(nb)]
+    # pooled sample sizes beyond 1029 chromosomes: binomial coefficients there exceed the float64 range
+    specs.append({"name": "scramble-large", "kind": "scramble-large", "b": 0, "n": 3 if tier == "quick" else 5, "timeout": 900})
     # the repository's own tests as workload, with the ambient monitors of vf.ambient installed
     specs.append({"name": "ambient-tests", "kind": "ambient-tests", "files": ['test_Spectrum.py', 'test_Subgenomes.py', 'test_Freezing.py', 'test_PhiManip.py'], "timeout": 2400, "cpus": 4})
     return specs
@@ -28,7 +30,7 @@ def plan(tier, seed):
 
 def required(tier):
     r = {"marginalize": 30, "filter_pops": 30, "reorder_pops": 30, "combine_pops": 30, "combine_two_pops": 20,
-            "scramble": 20, "Misc.combine_pops": 10, "folded-flag": 40, "labels": 100, "commute-project": 30,
+            "scramble": 20, "scramble-large": 2, "Misc.combine_pops": 10, "folded-flag": 40, "labels": 100, "commute-project": 30,
             "commute-fold": 30}
     r.update({'ambient-marginalize': 8})
     return r
@@ -83,10 +85,57 @@ def scramble_ref(data):
     return out
 
 
+def scramble_ref_big(data):
+    """The same pool-and-re-deal with exact integer binomials (int/int division is correctly rounded whatever the magnitudes)."""
+    ns = [s - 1 for s in data.shape]
+    N = sum(ns)
+    pooled = np.zeros(N + 1)
+    tot = np.add.outer(np.arange(data.shape[0]), np.arange(data.shape[1])) if data.ndim == 2 else sum(np.indices(data.shape))
+    np.add.at(pooled, tot.ravel(), data.ravel())
+    cN = [comb(N, d) for d in range(N + 1)]
+    cs = [[comb(n, c) for c in range(n + 1)] for n in ns]
+    out = np.zeros(data.shape)
+    for idx in np.ndindex(data.shape):
+        w = 1
+        for k, c in enumerate(idx):
+            w *= cs[k][c]
+        d = sum(idx)
+        out[idx] = (w / cN[d]) * pooled[d]
+    return out
+
+
+def run_scramble_large(spec, rec):
+    from dadi import Spectrum
+    for ci in range(spec["n"]):
+        rng = rng_for(spec["seed"], "C10big", ci)
+        big = int(rng.integers(1030, 1100))
+        small = [int(rng.integers(1, 5)) for _ in range(1 + (ci % 3 == 2))]
+        ns = [big] + small if ci % 2 == 0 else small + [big]
+        if ci % 3 == 1:
+            ns = [int(rng.integers(20, 40)), int(rng.integers(1000, 1015))]
+        shape = tuple(n + 1 for n in ns)
+        if not rec.case("big-%d" % ci, {"ns": ns}, nontrivial=True):
+            continue
+        data = rng.uniform(0.0, 5.0, size=shape) * (rng.random(shape) < 0.5)
+        data.flat[0] = data.flat[-1] = 0.0
+        src = Spectrum(data, mask_corners=False)
+        t = {"ns": ns, "pooled": int(sum(ns))}
+        ok, got = rec.noraise("returns", lambda: src.scramble_pop_ids(mask_corners=False), site="Spectrum.scramble_pop_ids", tags=t)
+        if not ok:
+            continue
+        ref = scramble_ref_big(data)
+        g = np.asarray(got.data)
+        rec.check("scramble-large-finite", bool(np.all(np.isfinite(g))), site="Spectrum.scramble_pop_ids", tags=t, observed=int((~np.isfinite(g)).sum()))
+        rec.close("scramble-large", relerr(g, ref, scale=np.max(np.abs(ref))), 1e-9, site="Spectrum.scramble_pop_ids", tags=t)
+        rec.close("total", abs(np.nansum(g) - data.sum()) / data.sum(), 1e-9, site="Spectrum.scramble_pop_ids", tags=t)
+
+
 def run(spec, rec):
     if spec.get("kind") == "ambient-tests":
         from vf import ambient
         return ambient.run_tests_batch(spec, rec, 'C10')
+    if spec.get("kind") == "scramble-large":
+        return run_scramble_large(spec, rec)
     import dadi
     from dadi import Spectrum, Misc
     seed = spec["seed"]
